@@ -199,6 +199,8 @@ func (g *gen) genFunc(typs []types.Type) error {
 func (g *gen) genStatement(typ types.Type, this, that string) error {
 	// an alias is only another name for its type
 	typ = types.Unalias(typ)
+	// an untyped constant is passed as a value of its default type
+	typ = types.Default(typ)
 	p := g.printer
 	switch ttyp := typ.Underlying().(type) {
 	case *types.Pointer:
